@@ -130,7 +130,7 @@ func Str(t *rapid.T, o TreeOpts, label string) []byte {
 	}
 	c := rapid.IntRange(0, 199).Draw(t, label+"_cls")
 	if c == 0 && !o.NoBigStr {
-		b := make([]byte, 32767)
+		b := make([]byte, rapid.SampledFrom([]int{65, 255, 256, 32766, 32767, 32767, 32767}).Draw(t, label+"_biglen"))
 		f := rapid.Byte().Draw(t, label+"_fill")
 		if o.TextKeys {
 			f = 'a' + f%26
